@@ -53,12 +53,11 @@ theorem firstRun_labels (s : CState) (alts : List (List Label × Resp)) :
 /-- **Every answer of the acceptor is a run of the LTS.** -/
 theorem respond_sound (s : CState) (r : Req) :
     crun s (respond s r).labels = some (respond s r).state := by
-  cases r <;> simp only [respond]
-  case set k v ttl => split <;> first | rfl | exact tryRun_sound _ _ _
-  case cfinish id => split <;> first | rfl | exact tryRun_sound _ _ _
-  case stopcall id => exact firstRun_sound _ _
-  case stopwait id => exact firstRun_sound _ _
-  all_goals exact tryRun_sound _ _ _
+  cases r <;> simp only [respond] <;> (repeat' split) <;>
+    first
+      | rfl
+      | exact tryRun_sound _ _ _
+      | exact firstRun_sound _ _
 
 theorem drive_sound (s : CState) (rs : List Req) :
     crun s (drive s rs).2.2 = some (drive s rs).1 := by
@@ -114,86 +113,160 @@ theorem noOp_bulk (s : CState) (id : Nat) : NoOp (bulkLabels s id) := by
   | none => rfl
   | some c => exact noOp_append (noOp_dels id _) rfl
 
-theorem tryRun_noOp (s : CState) {ls : List Label} (r : CState → Resp) (h : NoOp ls) :
-    (tryRun s ls r).labels.filterMap projOp = [] := by
-  rcases tryRun_labels s ls r with h1 | h1 <;> rw [h1]
-  · exact h
-  · rfl
-
-theorem firstRun_noOp (s : CState) (alts : List (List Label × Resp)) (h : ∀ a ∈ alts, NoOp a.1) :
-    (firstRun s alts).labels.filterMap projOp = [] := by
-  rcases firstRun_labels s alts with h1 | ⟨a, ha, h1⟩ <;> rw [h1]
-  · rfl
-  · exact h a ha
-
-theorem tryRun_enabled (s : CState) (l : Label) (r : CState → Resp) (h : cstep s l ≠ none) :
-    (tryRun s [l] r).labels = [l] := by
-  unfold tryRun
-  rw [crun_single]
-  cases hc : cstep s l with
-  | none => exact absurd hc h
+theorem tryRun_ok_labels (s : CState) (ls : List Label) (r : CState → Resp)
+    (h : (tryRun s ls r).resp ≠ .error) : (tryRun s ls r).labels = ls := by
+  unfold tryRun at h ⊢
+  cases hc : crun s ls with
+  | none => simp [hc] at h
   | some s' => rfl
 
-theorem respond_projOp (s : CState) (r : Req) :
+theorem firstRun_ok_labels (s : CState) (alts : List (List Label × Resp))
+    (h : (firstRun s alts).resp ≠ .error) : ∃ a ∈ alts, (firstRun s alts).labels = a.1 := by
+  induction alts with
+  | nil => exact absurd rfl h
+  | cons a alts ih =>
+    obtain ⟨ls, r⟩ := a
+    simp only [firstRun] at h ⊢
+    cases hc : crun s ls with
+    | none =>
+      simp only [hc] at h
+      obtain ⟨a, ha, h2⟩ := ih h
+      exact ⟨a, List.mem_cons_of_mem _ ha, h2⟩
+    | some s' => exact ⟨(ls, r), by simp, rfl⟩
+
+/-- For an answer other than `error`, the callers' history of the executed labels is the caller
+operation the request stands for. -/
+theorem respond_projOp (s : CState) (r : Req) (hne : (respond s r).resp ≠ .error) :
     (respond s r).labels.filterMap projOp = (reqOp r).toList := by
   cases r
   case set k v ttl =>
-    simp only [respond, reqOp]
+    simp only [respond, reqOp] at hne ⊢
     by_cases hb : badTTL ttl
     · simp only [if_pos hb]; rfl
-    · simp only [if_neg hb]
-      rw [tryRun_enabled s _ _ (by simp [cstep, hb])]
-      rfl
+    · simp only [if_neg hb] at hne ⊢
+      rw [tryRun_ok_labels _ _ _ hne]; rfl
+  case send id k v ttl =>
+    simp only [respond, reqOp] at hne ⊢
+    by_cases h0 : id = 0
+    · simp [h0] at hne
+    · simp only [if_neg h0] at hne ⊢
+      rw [tryRun_ok_labels _ _ _ hne]; rfl
+  case sbegin id k v ttl =>
+    simp only [respond, reqOp] at hne ⊢
+    by_cases hb : badTTL ttl
+    · simp only [if_pos hb]; rfl
+    · simp only [if_neg hb] at hne ⊢
+      by_cases h0 : id = 0
+      · simp [h0] at hne
+      · simp only [if_neg h0] at hne ⊢
+        rw [tryRun_ok_labels _ _ _ hne]; rfl
+  case gbegin id k =>
+    simp only [respond, reqOp] at hne ⊢
+    by_cases h0 : id = 0
+    · simp [h0] at hne
+    · simp only [if_neg h0] at hne ⊢
+      rw [tryRun_ok_labels _ _ _ hne]; rfl
+  case gend id k =>
+    simp only [respond, reqOp] at hne ⊢
+    by_cases h0 : id = 0
+    · simp [h0] at hne
+    · simp only [if_neg h0] at hne ⊢
+      cases hf : findGetter s.getters id with
+      | none => simp [hf] at hne
+      | some g =>
+        simp only [hf] at hne ⊢
+        rw [tryRun_ok_labels _ _ _ hne]; rfl
   case del k =>
-    simp only [respond, reqOp]
-    rw [tryRun_enabled s _ _ (by simp [cstep])]
-    rfl
+    simp only [respond, reqOp] at hne ⊢
+    rw [tryRun_ok_labels _ _ _ hne]; rfl
   case adv d =>
-    simp only [respond, reqOp]
-    rw [tryRun_enabled s _ _ (by simp only [cstep]; split <;> simp)]
-    rfl
-  case get k => exact tryRun_noOp s _ rfl
-  case cbegin id r => exact tryRun_noOp s _ (noOp_append rfl (noOp_snap s id))
+    simp only [respond, reqOp] at hne ⊢
+    rw [tryRun_ok_labels _ _ _ hne]; rfl
+  case get k =>
+    simp only [respond, reqOp] at hne ⊢
+    rw [tryRun_ok_labels _ _ _ hne]; rfl
+  case cbegin id r =>
+    simp only [respond, reqOp] at hne ⊢
+    rw [tryRun_ok_labels _ _ _ hne]
+    exact noOp_append rfl (noOp_snap s id)
   case cfinish id =>
-    simp only [respond, reqOp]
-    split
-    · rfl
-    · exact tryRun_noOp s _ (noOp_bulk s id)
-  case bgsnap => exact tryRun_noOp s _ (noOp_append rfl (noOp_snap s 0))
-  case bgfinish => exact tryRun_noOp s _ (noOp_bulk s 0)
+    simp only [respond, reqOp] at hne ⊢
+    by_cases h0 : id = 0
+    · simp [h0] at hne
+    · simp only [if_neg h0] at hne ⊢
+      rw [tryRun_ok_labels _ _ _ hne]
+      exact noOp_bulk s id
+  case bgsnap =>
+    simp only [respond, reqOp] at hne ⊢
+    rw [tryRun_ok_labels _ _ _ hne]
+    exact noOp_append rfl (noOp_snap s 0)
+  case bgfinish =>
+    simp only [respond, reqOp] at hne ⊢
+    rw [tryRun_ok_labels _ _ _ hne]
+    exact noOp_bulk s 0
   case stop =>
-    refine tryRun_noOp s _ (noOp_append (noOp_append rfl ?_) rfl)
+    simp only [respond, reqOp] at hne ⊢
+    rw [tryRun_ok_labels _ _ _ hne]
+    refine noOp_append (noOp_append rfl ?_) rfl
     split <;> rfl
   case stopcall id =>
-    refine firstRun_noOp s _ ?_
-    intro a ha
+    simp only [respond, reqOp] at hne ⊢
+    obtain ⟨a, ha, h1⟩ := firstRun_ok_labels _ _ hne
+    rw [h1]
     simp only [List.mem_cons, List.not_mem_nil, or_false] at ha
     rcases ha with rfl | rfl | rfl <;> rfl
   case stopwait id =>
-    refine firstRun_noOp s _ ?_
-    intro a ha
+    simp only [respond, reqOp] at hne ⊢
+    obtain ⟨a, ha, h1⟩ := firstRun_ok_labels _ _ hne
+    rw [h1]
     simp only [List.mem_cons, List.not_mem_nil, or_false] at ha
     rcases ha with rfl | rfl <;> rfl
 
-theorem drive_projOp (s : CState) (rs : List Req) :
+theorem drive_projOp (s : CState) (rs : List Req) (hne : Resp.error ∉ (drive s rs).2.1) :
     (drive s rs).2.2.filterMap projOp = rs.filterMap reqOp := by
   induction rs generalizing s with
   | nil => rfl
   | cons r rs ih =>
-    simp only [drive, List.filterMap_append, respond_projOp, ih, List.filterMap_cons]
+    simp only [drive, List.mem_cons, not_or] at hne
+    simp only [drive, List.filterMap_append, List.filterMap_cons]
+    rw [respond_projOp s r (fun h => hne.1 h.symm), ih _ hne.2]
     cases reqOp r <;> simp
 
-/-- What a reported hit means. -/
+/-- What a reported hit of an atomic `get` means. -/
 theorem respond_get_hit (s : CState) (k : Key) (v : Val) (h : (respond s (.get k)).resp = .hit v) :
     getOfC s k = some v := by
   simp only [respond, tryRun] at h
-  cases hc : crun s [Label.get k (getOfC s k)] with
+  cases hc : crun s [Label.gRead 0 k, Label.gNow 0 k (getOfC s k)] with
   | none => simp [hc] at h
   | some s' =>
     simp only [hc] at h
     cases hg : getOfC s k with
-    | none => simp [hg] at h
-    | some v' => simp only [hg, Resp.hit.injEq] at h; rw [h]
+    | none => simp [hg, respOfGet] at h
+    | some v' => simp only [hg, respOfGet, Resp.hit.injEq] at h; rw [h]
+
+/-- What the answer of a split `Get`'s second half means: the `gNow` label with that result was
+enabled. -/
+theorem respond_gend (s : CState) (id : Nat) (k : Key) (hne : (respond s (.gend id k)).resp ≠ .error) :
+    ∃ r, (respond s (.gend id k)).resp = respOfGet r ∧
+      cstep s (.gNow id k r) = some (respond s (.gend id k)).state := by
+  simp only [respond] at hne ⊢
+  by_cases h0 : id = 0
+  · simp [h0] at hne
+  · simp only [if_neg h0] at hne ⊢
+    cases hf : findGetter s.getters id with
+    | none => simp [hf] at hne
+    | some g =>
+      simp only [hf] at hne ⊢
+      refine ⟨serve g.read s.now, ?_, ?_⟩
+      · unfold tryRun at hne ⊢
+        cases hc : crun s [Label.gNow id k (serve g.read s.now)] with
+        | none => simp [hc] at hne
+        | some s' => rfl
+      · unfold tryRun at hne ⊢
+        rw [crun_single] at hne ⊢
+        cases hc : cstep s (Label.gNow id k (serve g.read s.now)) with
+        | none => simp [hc] at hne
+        | some s' => rfl
 
 theorem firstRun_spec (s : CState) (alts : List (List Label × Resp)) :
     ((firstRun s alts).labels = [] ∧ (firstRun s alts).resp = .error) ∨
